@@ -184,9 +184,9 @@ structure InJ where
 deriving FromJson, ToJson
 def InJ.toIn (i : InJ) : In := ⟨i.arts.map ArtJ.toArt, i.procs, i.features, i.fs0, i.dirs0, i.probes⟩
 def engineC10 : Engine :=
-  mkEngine (I := InJ) (O := Obs) (fun i => model i.toIn) (fun _ => true) (fun i o => judgeC10 i.toIn o)
+  mkEngineP (I := InJ) (O := Obs) (fun i => model i.toIn) (fun _ o => projC10 o) (fun _ => true) (fun i o => judgeC10 i.toIn o)
 def engineC12 : Engine :=
-  mkEngine (I := InJ) (O := Obs) (fun i => model i.toIn) (fun i => domC12 i.toIn) (fun i o => judgeC12 i.toIn o)
+  mkEngineP (I := InJ) (O := Obs) (fun i => model i.toIn) (fun _ o => projC12 o) (fun i => domC12 i.toIn) (fun i o => judgeC12 i.toIn o)
 end Persist
 
 /-! ### C13 generator workflow -/
